@@ -27,8 +27,9 @@ FUNCTIONS = ['plasTeX.TeX:TeX.parse', 'plasTeX.TeX:bufferediter', 'plasTeX:Macro
 RULE = ('one evaluation = one path: (i) one order type of the symbolic levels; (ii) one skeleton x one symbolic leaf x one class of its characters; '
         'non-trivial = >= 2 sectioning nodes / a leaf containing a quote or dash')
 BOUNDS = {
-    'quick': '(i) streams of 4 sectioning nodes with levels in [-2, 6] + text; (ii) 9 skeletons (2-11 leaves each), one leaf at a time made of 2 symbolic characters over '
-             '{a, \', `, -, ", e-acute}, the other leaves concrete markers',
+    'quick': '(i) streams of 4 sectioning nodes with levels in [-2, 6] + text; (ii) 11 skeletons (2-11 leaves each; incl. headings inside brace groups / \\begingroup and after open declarations, groups and scripts inside mathematics), one leaf at a time made of a fixed '
+             'quote and dash plus 2 symbolic characters over {a, \', `, -, ", e-acute} (so that the same substitution can be needed twice in one run), the other leaves concrete markers; '
+             'every sectioning unit hangs under the nearest preceding unit of lower level',
     'thorough': '(i) 6 sectioning nodes; (ii) leaves of 3 symbolic characters and two symbolic leaves at a time',
 }
 ASSUMPTIONS = ['leaf characters are not TeX-special (they are drawn from letters, quotes, dashes, non-ASCII)',
@@ -113,9 +114,12 @@ SKELETONS = {
     'fonts': ('article', ['\\section{T}', L(), ' \\textbf{', L(), ' \\emph{', L(), '}', L(), '} {\\bfseries ', L(), '} {\\itshape ', L(), ' {\\small ', L(), '}}', L(),
                           ' \\mbox{', L(), '}', L()]),
     'declaration-to-heading': ('article', ['\\section{T}', L(), ' \\small ', L(), ' \\subsection{', L('title'), '}', L(), ' \\centering ', L(), ' \\section{', L('title'), '}', L()]),
+    'heading-in-group': ('article', ['\\section{T}', L(), ' {\\small ', L(), ' \\subsection{', L('title'), '}', L(), '} ', L(), ' \\begingroup\\itshape ', L(), ' \\section{', L('title'), '}', L(),
+                                     '\\endgroup ', L(), ' \\subsection{', L('title'), '}', L()]),
     'footnote-table': ('article', ['\\section{T}', L(), '\\footnote{', L(), '} ', L(), '\\begin{tabular}{ll}', L(), '&', L(), '\\\\ ', L(), '&', L(), '\\end{tabular}', L()]),
     'math-verbatim': ('article', ['\\section{T}', L(), ' $', L('raw'), '$ ', L(), ' \\[', L('raw'), '\\] ', L(), '\\begin{verbatim}', L('raw'), '\\end{verbatim}', L(),
                                   ' \\verb|', L('raw'), '| ', L()]),
+    'math-groups': ('article', ['\\section{T}', L(), ' $^{', L('mathgroup'), '}$ ', L(), ' ${', L('mathgroup'), '}$ ', L(), '\\begin{equation}_{', L('mathgroup'), '}\\end{equation}', L()]),
     'plain-paragraphs': ('article', [L(), '\n\n', L(), ' \\textit{', L(), '}\n\n', L()]),
 }
 
@@ -141,7 +145,7 @@ def h_source(e, skel, which, nch=2):
                     c = e.char('t%d' % i, 34, 233)
                     e.assume(e.one_of(c, ['a', "'", '`', '-', '"', '\xe9']))
                     cs.append(c)
-                leaf = api.cat(['x'] + cs + ['y'])
+                leaf = api.cat(list("x'x--x") + cs + ['y'])          # a quote and a dash are there already: the symbolic characters can ask for the same substitution a second time
                 symleaf = cs
             else:
                 leaf = 'w%sz' % 'abcdefghijklmnop'[k]
@@ -200,12 +204,12 @@ def h_source(e, skel, which, nch=2):
     got = [c for c in api.chars(full) if not (eq(c, ' ') or eq(c, '\n'))]
     want_parts = []
     for leaf, ctx in expected:
-        want_parts.append(leaf if ctx == 'raw' else subst(leaf))
+        want_parts.append(leaf if ctx in ('raw', 'mathgroup') else subst(leaf))
     # concrete markup that is itself text (section title T, description brackets) is part of the expected walk
     want_full = _interleave(parts, want_parts)
     want = [c for c in api.chars(want_full) if not (eq(c, ' ') or eq(c, '\n'))]
     e.observe(api.cat(got) if got else '')
-    e.check(len(got) == len(want), 'the walk yields %d non-blank characters, the source has %d (skeleton %s, symbolic leaf %d)' % (len(got), len(want), skel, which), 'text-count')
+    e.check(len(got) == len(want), 'the walk yields %d non-blank characters, the source has %d (skeleton %s, symbolic leaf %d)' % (len(got), len(want), skel, which), 'text-count:' + expected[which][1])
     if len(got) == len(want):
         e.check(api.all_([eq(a, b) for a, b in zip(got, want)]), 'text of the depth-first walk differs from the source text in order/substitution (skeleton %s, leaf %d in %s context)'
                 % (skel, which, expected[which][1]), 'text-order:' + expected[which][1])
@@ -232,6 +236,28 @@ SECTIONING = {'part': -1, 'chapter': 0, 'section': 1, 'subsection': 2, 'subsubse
 
 
 def _check_sections(e, out):
+    # the hierarchy of sectioning units is the one their levels give: each unit hangs under the nearest preceding unit of a lower level, else under the document
+    heads = []
+
+    def collect(n):
+        for c in n.childNodes:
+            if getattr(c, 'nodeType', None) == 1:
+                if c.nodeName in SECTIONING:
+                    heads.append(c)
+                collect(c)
+    collect(out)
+    for i, h in enumerate(heads):
+        want = None
+        for g in reversed(heads[:i]):
+            if g.level < h.level:
+                want = g
+                break
+        par = h.parentNode
+        if want is None:
+            e.check(getattr(par, 'nodeName', None) == 'document', '<%s> (unit %d) hangs under <%s>, not under the document' % (h.nodeName, i, getattr(par, 'nodeName', None)), 'section-parent')
+        else:
+            e.check(par is want, '<%s> (unit %d) hangs under <%s>, not under the preceding <%s>' % (h.nodeName, i, getattr(par, 'nodeName', None), want.nodeName), 'section-parent')
+
     def walk(n):
         for c in n.childNodes:
             if getattr(c, 'nodeType', None) != 1:
